@@ -232,6 +232,8 @@ func (f *FailoverOf[V]) Get(
 
 	// Disabling defer to unlock in background.
 	alreadyLocked = true
+	// Copying key, caller is free to reuse or mutate the slice once Get returns.
+	key = append([]byte(nil), key...)
 	// Spawning cache update in background.
 	go func() {
 		defer func() {
